@@ -54,6 +54,7 @@ Lex(s) == LET g == FoldLeft(LexStep, Lex0, Chars(s)) f == IF g.mode = "code" THE
 
 \* ---------------------------------------------------------------- well-formedness on tokens
 P(tk, c) == tk.t = "p" /\ tk.s = c
+IsKwTok(tk, names) == tk.t = "id" /\ tk.s \in names
 Open == {"(", "[", "{"}
 Close == [x \in {")", "]", "}"} |-> CASE x = ")" -> "(" [] x = "]" -> "[" [] x = "}" -> "{"]
 BalStep(stack, tk) ==                                \* stack = <<"!">> is the error sink
@@ -76,6 +77,12 @@ DanglingSeparator(toks) ==
                            /\ \/ i = 1 \/ i = Len(toks)
                               \/ (At(toks, i + 1).t = "p" /\ At(toks, i + 1).s \in {"}", ")", "]", ","})
                               \/ (At(toks, i - 1).t = "p" /\ At(toks, i - 1).s \in {"{", "(", "["})
+\* a clause keyword with nothing after it (WHERE directly followed by RETURN, a trailing AND ...)
+ClauseKw == {"where", "WHERE", "and", "AND", "or", "OR", "set", "SET", "match", "MATCH", "with", "WITH", "return", "RETURN", "unwind", "UNWIND"}
+NextClauseKw == {"return", "RETURN", "with", "WITH", "match", "MATCH", "where", "WHERE", "union", "UNION", "and", "AND", "or", "OR"}
+EmptyClause(toks) ==
+    \E i \in DOMAIN toks : /\ IsKwTok(toks[i], ClauseKw)
+                           /\ (i = Len(toks) \/ (IsKwTok(toks[i + 1], NextClauseKw) /\ ~(toks[i].s \in {"with", "WITH"} /\ FALSE)))
 CommentOpener(toks) == \E i \in 1..(Len(toks) - 1) : (P(toks[i], "/") /\ (P(toks[i + 1], "/") \/ P(toks[i + 1], "*")))
 ParamsUsed(toks) == {toks[i].s : i \in {j \in DOMAIN toks : toks[j].t = "param"}}
 
@@ -120,6 +127,7 @@ DefectFlat(text, params) ==
     ELSE IF TemplateLeftover(toks) THEN "unexpanded template fragment"
     ELSE IF CommentOpener(toks) THEN "comment opener in statement"
     ELSE IF DanglingSeparator(toks) THEN "dangling separator"
+    ELSE IF EmptyClause(toks) THEN "empty clause"
     ELSE IF ~(ParamsUsed(toks) \subseteq params) THEN "parameter named but not supplied"
     ELSE IF Unbound(toks) # {} THEN "variable referenced but never bound"
     ELSE ""
